@@ -484,11 +484,17 @@ mod depth_sites {
         spec_after(s as u32 + 2 * ds, a as u32 + 2 * da, total + 2)
     }
 
-    static U8: Signature = Signature::U8;
-    static S1: Signature = Signature::static_structure(&[&U8]);
-    static S2: Signature = Signature::static_structure(&[&S1]);
-    static A1: Signature = Signature::static_array(&U8);
-    static A2: Signature = Signature::static_array(&A1);
+    // Signatures are built as *local values* from promoted constants: a `static` Signature makes CBMC lose the
+    // `&'static Signature` pointer targets (measured: out of memory with no symbolic input at all).
+    static S1: Signature = Signature::static_structure(&[&Signature::U8]);
+    static A1: Signature = Signature::static_array(&Signature::U8);
+    static S1_FIELDS: [&Signature; 1] = [&S1];
+    fn s2() -> Signature {
+        Signature::static_structure(&S1_FIELDS)
+    }
+    fn a2() -> Signature {
+        Signature::static_array(&A1)
+    }
 
     macro_rules! ser_site {
         ($h:ident, $sig:expr, $val:expr, $ds:expr, $da:expr) => {
@@ -500,10 +506,11 @@ mod depth_sites {
                 let d = depths_state(s, a, v, m);
                 let total = s as u32 + a as u32 + v as u32 + m as u32;
                 let ctxt = Context::new_dbus(Endian::Little, 0);
+                let sig: Signature = $sig;
                 let mut buf = [0u8; 32];
                 let mut cur = Cursor::new(&mut buf[..]);
                 let mut fds = FdList::Number(0);
-                let mut ser = match DBusSerializer::new(&$sig, &mut cur, &mut fds, ctxt) {
+                let mut ser = match DBusSerializer::new(&sig, &mut cur, &mut fds, ctxt) {
                     Ok(s) => s,
                     Err(e) => {
                         core::mem::forget(e);
@@ -526,8 +533,8 @@ mod depth_sites {
             }
         };
     }
-    ser_site!(c07_site_ser_struct, S2, ((7u8,),), 1, 0);
-    ser_site!(c07_site_ser_array, A2, [[7u8; 1]; 1], 0, 1);
+    ser_site!(c07_site_ser_struct, s2(), ((7u8,),), 1, 0);
+    ser_site!(c07_site_ser_array, a2(), [[7u8; 1]; 1], 0, 1);
 
     // ---- minimal Deserialize targets that do not allocate
     struct Bytes0; // consumes a sequence of u8
@@ -566,7 +573,7 @@ mod depth_sites {
     }
 
     macro_rules! de_site {
-        ($h:ident, $sig:expr, $bytes:expr, $ds:expr, $da:expr) => {
+        ($h:ident, $target:ty, $sig:expr, $bytes:expr, $ds:expr, $da:expr) => {
             #[kani::proof]
             #[kani::unwind(6)]
             #[kani::stub(alloc::fmt::format, no_format)]
@@ -576,7 +583,8 @@ mod depth_sites {
                 let total = s as u32 + a as u32 + v as u32 + m as u32;
                 let ctxt = Context::new_dbus(Endian::Little, 0);
                 let bytes = $bytes;
-                let mut de = match DBusDeserializer::<std::os::fd::BorrowedFd<'static>>::new(&bytes[..], None, &$sig, ctxt) {
+                let sig: Signature = $sig;
+                let mut de = match DBusDeserializer::<std::os::fd::BorrowedFd<'static>>::new(&bytes[..], None, &sig, ctxt) {
                     Ok(d) => d,
                     Err(e) => {
                         core::mem::forget(e);
@@ -584,7 +592,7 @@ mod depth_sites {
                     }
                 };
                 de.0.container_depths = d;
-                let r = Nested::deserialize(&mut de);
+                let r = <$target>::deserialize(&mut de);
                 let got = kind_of(&r);
                 core::mem::forget(r);
                 let want = expect2(s, a, total, $ds, $da);
@@ -598,8 +606,32 @@ mod depth_sites {
             }
         };
     }
-    de_site!(c07_site_de_struct, S2, [7u8], 1, 0);
-    de_site!(c07_site_de_array, A2, [5u8, 0, 0, 0, 1, 0, 0, 0, 7], 0, 1);
+    // real serde tuple visitors (they do not ask for an element past the last field)
+    de_site!(c07_site_de_struct, ((u8,),), s2(), [7u8], 1, 0);
+    de_site!(c07_site_de_array, Nested, a2(), [5u8, 0, 0, 0, 1, 0, 0, 0, 7], 0, 1);
+
+    // ---- variants: `v` holding `v` holding `y`, read without building a Value
+    struct Var<T>(T);
+    impl<'de, T: Deserialize<'de>> Deserialize<'de> for Var<T> {
+        fn deserialize<D: serde::Deserializer<'de>>(d: D) -> Result<Self, D::Error> {
+            struct V<T>(core::marker::PhantomData<T>);
+            impl<'de, T: Deserialize<'de>> Visitor<'de> for V<T> {
+                type Value = Var<T>;
+                fn expecting(&self, _: &mut std::fmt::Formatter<'_>) -> std::fmt::Result {
+                    Ok(())
+                }
+                fn visit_seq<A: SeqAccess<'de>>(self, mut seq: A) -> Result<Var<T>, A::Error> {
+                    let _sig: Option<&'de str> = seq.next_element()?;
+                    match seq.next_element::<T>()? {
+                        Some(x) => Ok(Var(x)),
+                        None => Err(serde::de::Error::custom("variant without a value")),
+                    }
+                }
+            }
+            d.deserialize_seq(V(core::marker::PhantomData))
+        }
+    }
+    de_site!(c07_site_de_variant, Var<Var<u8>>, Signature::Variant, [1u8, b'v', 0, 1, b'y', 0, 7], 0, 0);
 }
 
 /// Harness-provided in-memory writer: fixed buffer, never fails (capacity is asserted instead), trivially seekable.
